@@ -33,6 +33,7 @@ def run(ck):
     ck.assumptions += ["slice::binary_search/insert semantics", "Dynamics::matcher deliberately folds over all caring directives (not covered)"]
     ck.rule("C11.R7", "directive levels are compared by a correct total order (as C19.R1/R2/R4)", floor=60)
     ck.rule("C11.R8", "EnvFilter and Targets implement the same hooks as a layer and as a per-subscriber filter (as C09.R9)", floor=9)
+    ck.rule("C11.R10", "span-scoped directives can raise the level for a callsite the static directives turn off: EnvFilter never caches `never` while it has span directives (as C08.R11)", floor=2)
     ck.rule("C11.R9", "EnvFilter Builder steps keep every other option (same-named field carry-over, as C13.R6)", floor=3)
     ck.rule("C11.R1", "directive vector mutated only by DirectiveSet::add at the binary_search position; max_level kept an upper bound", floor=5)
     ck.rule("C11.R2", "first match in storage order decides; no match disables; siblings agree", floor=4)
@@ -56,6 +57,7 @@ def run(ck):
     C09.role_agreement(ck, F, rid="C11.R8", only=("EnvFilter", "Targets"))
     from rulekit.query import builder_carry_over
     builder_carry_over(ck, F, "C11.R9", ("tracing_subscriber::filter::env::builder::",))
+    C08.envfilter_interest(ck, F, rid="C11.R10")
 
 
 def r1(ck, F):
